@@ -10,6 +10,17 @@
 // history ends with the crash: sampled images are recovered with the production open paths
 // (tsdb.NewEngine, WriteAheadLogManager.Recovery) and the free-running replication loop drains
 // the log; then the oracle reads the node through the production query path.
+//
+// Two further kinds of operation (wave 3):
+//   - records the replicator must skip: the storage write rpc appends req.Record to the log without
+//     looking at it, so the log may hold records which are not a snappy stream (garbage, a torn
+//     prefix of a real record) or which decode to zero rows. They carry no write; the replicator
+//     skips them (IgnoreMessage) and the log acknowledgement may pass them only when nothing below
+//     them is waiting for a flush.
+//   - replication racing INSIDE a flush sub-step: at intercepted table file operations of the
+//     sub-step (where the flush job does not hold the family mutex) the harness runs the other
+//     actors of the node - an append and/or single steps of the local replicator - on the flush
+//     job's goroutine, i.e. between freezing the memory database and the kv commit.
 package c07
 
 import (
@@ -131,6 +142,42 @@ type world struct {
 	appendedAt []int // per history op index: number of entries appended before it started
 	thorough   bool
 	logRemoved bool
+
+	kinds []string // kinds[i] == "" : entry i is a write; else the kind of record the replicator must skip
+	// racing inside a flush sub-step (harness-owned interleaving at the table seam)
+	subStep  string      // flush sub-step in flight ("" = none)
+	race     []racePoint // plan of the sub-step in flight
+	raceSeen int         // eligible seam events of the sub-step seen so far
+	racing   bool
+	// loss windows: positions in im.Points at which a state began in which a wrong acknowledgement /
+	// stored sequence would lose entries at a crash (until the next data flush commits)
+	raceWindows []int // a replication step ran inside a data flush after the freeze
+	skipWindows []int // a record was skipped while earlier applied entries were not flushed
+	imageTags   map[int][]string
+	flushRanges [][2]int // positions in im.Points of every flush sub-step
+}
+
+// appendSpec holds the draws of one append (drawn before the operation which performs it runs).
+type appendSpec struct {
+	reuse bool
+	pick  int
+}
+
+// racePoint: at the at-th eligible seam event of a flush sub-step the harness performs len(steps)
+// replication steps; a step whose log has nothing pending appends an entry (its spec) first.
+type racePoint struct {
+	at    int
+	steps []appendSpec
+}
+
+func (w *world) bad(i int) bool { return i >= 0 && i < len(w.kinds) && w.kinds[i] != "" }
+
+func (w *world) pending() int64 {
+	r := replica.VerifReplicator(w.part, nodeID)
+	if r == nil {
+		return 0
+	}
+	return r.Pending()
 }
 
 func (w *world) logf(format string, args ...any) { w.ops = append(w.ops, fmt.Sprintf(format, args...)) }
@@ -151,13 +198,19 @@ func walDir(cfg config.WAL, db string) string {
 	return filepath.Join(cfg.Dir, db, "0", commontimeutil.FormatTimestamp(baseTime, commontimeutil.DataTimeFormat4), strconv.Itoa(int(nodeID)))
 }
 
-func (w *world) opAppend() {
-	if w.appended >= maxEntries {
-		w.t.Skip("log full")
+func drawAppendSpec(t *rapid.T) appendSpec {
+	sp := appendSpec{reuse: rapid.Bool().Draw(t, "reuseNames")}
+	if sp.reuse {
+		sp.pick = rapid.IntRange(0, maxEntries-1).Draw(t, "ref")
 	}
+	return sp
+}
+
+// appendWrite appends the next write entry; opName is the history operation the images belong to.
+func (w *world) appendWrite(sp appendSpec, opName, note string) {
 	i := w.appended
 	ref := i
-	if i > 0 && rapid.Bool().Draw(w.t, "reuseNames") {
+	if sp.reuse {
 		// write into the series of an earlier entry that introduced names
 		var owners []int
 		for j, r := range w.refs {
@@ -165,16 +218,24 @@ func (w *world) opAppend() {
 				owners = append(owners, j)
 			}
 		}
-		ref = rapid.SampledFrom(owners).Draw(w.t, "ref")
+		if len(owners) > 0 {
+			ref = owners[sp.pick%len(owners)]
+		}
 	}
 	msg, err := message(i, ref)
 	if err != nil {
 		w.fatalf("harness: message: %v", err)
 	}
+	w.logf("%sappendLog entry=%d names-of=%d", note, i, ref)
+	w.appendRecord(msg, ref, "", opName)
+}
+
+func (w *world) appendRecord(msg []byte, ref int, kind, opName string) {
+	i := w.appended
 	w.refs = append(w.refs, ref)
-	w.logf("appendLog entry=%d names-of=%d", i, ref)
-	w.begin("appendLog")
-	err = w.part.WriteLog(msg)
+	w.kinds = append(w.kinds, kind)
+	w.begin(opName)
+	err := w.part.WriteLog(msg)
 	w.end()
 	if err != nil {
 		w.fatalf("WriteLog: %v", err)
@@ -185,54 +246,227 @@ func (w *world) opAppend() {
 	}
 }
 
-func (w *world) opReplicaStep() {
-	r := replica.VerifReplicator(w.part, nodeID)
-	if r == nil || r.Pending() == 0 {
-		w.t.Skip("nothing to replicate")
+func (w *world) opAppend() {
+	if w.appended >= maxEntries {
+		w.t.Skip("log full")
 	}
-	newNames := w.refs[w.applied] == w.applied
-	if w.cycle != 0 && newNames && ev.Known(sigD8) {
+	w.appendWrite(drawAppendSpec(w.t), "appendLog", "")
+}
+
+// opAppendSkipped appends a record which carries no write and which the replicator must skip: the
+// storage write rpc (app/storage/rpc/write.go) hands req.Record to Partition.WriteLog as received.
+//   - garbage:   bytes which are not a snappy stream
+//   - torn:      a proper prefix of the record of a real write
+//   - zero-rows: a snappy stream which decodes to an empty block
+//
+// The record is classified by decoding it here; a record which decodes to a non-empty block is not used.
+func (w *world) opAppendSkipped() {
+	if w.appended >= maxEntries {
+		w.t.Skip("log full")
+	}
+	i := w.appended
+	var msg []byte
+	shape := rapid.SampledFrom([]string{"garbage", "garbage", "torn", "torn", "zero-rows"}).Draw(w.t, "skippedShape")
+	switch shape {
+	case "garbage":
+		msg = rapid.SliceOfN(rapid.Byte(), 1, 48).Draw(w.t, "garbage")
+	case "torn":
+		full, err := message(i, i)
+		if err != nil {
+			w.fatalf("harness: message: %v", err)
+		}
+		msg = full[:rapid.IntRange(1, len(full)-1).Draw(w.t, "tornAt")]
+	default:
+		zw := compress.NewSnappyWriter()
+		if err := zw.Close(); err != nil {
+			w.fatalf("harness: %v", err)
+		}
+		msg = zw.Bytes()
+		if len(msg) == 0 {
+			msg = []byte("\xff\x06\x00\x00sNaPpY") // the stream identifier chunk alone
+		}
+	}
+	block, err := compress.NewSnappyReader().Uncompress(msg)
+	kind := "undecodable"
+	switch {
+	case err != nil:
+	case len(block) == 0:
+		kind = "zero-rows"
+	default:
+		w.t.Skip("record decodes to a non-empty block")
+	}
+	w.logf("appendLog entry=%d SKIPPED-RECORD %s/%s (%d bytes)", i, shape, kind, len(msg))
+	w.appendRecord(msg, -1, kind, "appendLog")
+	w.classes["append-skipped-record-"+kind]++
+}
+
+// replicaCore runs one step of the local replicator. inside = flush sub-step the step runs inside
+// ("" = between operations). It returns false if the step is excluded by the known finding.
+func (w *world) replicaCore(inside string) bool {
+	e := w.applied
+	newNames := !w.bad(e) && w.refs[e] == e
+	// after the freeze of the data flush a new name behaves like one created after the cycle
+	exposed := newNames && (inside == "flushMeta" || inside == "flushIndex" || (inside == "" && w.cycle != 0))
+	if exposed && ev.Known(sigD8) {
 		// known finding: names created after the metadata (or index) freeze of a flush cycle whose
 		// data flush then persists the rows and the log sequence
 		w.classes["excluded_known"]++
-		w.t.Skip("excluded: known finding " + sigD8)
+		return false
 	}
-	w.logf("replicaStep (entry %d)", w.applied)
-	w.begin("replicaStep")
+	r := replica.VerifReplicator(w.part, nodeID)
+	ackBefore := r.AckIndex()
+	opName := "replicaStep"
+	if inside != "" {
+		opName = "replicaStep@" + inside
+		w.logf("  [inside %s, seam event %d] replicaStep (entry %d)", inside, w.raceSeen-1, e)
+	} else {
+		w.logf("replicaStep (entry %d)", e)
+	}
+	w.begin(opName)
 	replica.VerifReplicaStep(w.part, nodeID)
 	w.end()
-	if w.cycle != 0 && newNames {
-		w.d8Exposed[w.applied] = true
+	if exposed {
+		w.d8Exposed[e] = true
 	}
 	w.applied++
-	if w.cycle != 0 {
+	switch {
+	case inside != "":
+		w.classes["replica-step-inside-"+inside]++
+		if inside == "flushFamily" {
+			w.classes["replica-step-between-memdb-freeze-and-kv-commit"]++
+			w.raceWindows = append(w.raceWindows, len(w.im.Points))
+		}
+	case w.cycle != 0:
 		w.classes["write-racing-with-flush-cycle"]++
+	}
+	if w.bad(e) {
+		w.classes["replicator-skips-record"]++
+		unflushed := false
+		for k := int(ackBefore) + 1; k < e; k++ {
+			if !w.bad(k) {
+				unflushed = true
+			}
+		}
+		if unflushed {
+			// the shape in which an acknowledgement of the skipped record would pass unflushed writes
+			w.classes["replicator-skips-record-above-unflushed-writes"]++
+			w.skipWindows = append(w.skipWindows, len(w.im.Points))
+		} else {
+			w.classes["replicator-skips-record-next-to-ack"]++
+		}
+	}
+	return true
+}
+
+func (w *world) opReplicaStep() {
+	if w.pending() == 0 {
+		w.t.Skip("nothing to replicate")
+	}
+	if !w.replicaCore("") {
+		w.t.Skip("excluded: known finding " + sigD8)
+	}
+}
+
+// opReplicaCatchUp: the replicator (a free running loop in production) handles everything that is pending.
+func (w *world) opReplicaCatchUp() {
+	if w.pending() == 0 {
+		w.t.Skip("nothing to replicate")
+	}
+	if w.catchUp() == 0 {
+		w.t.Skip("excluded: known finding " + sigD8)
+	}
+	w.classes["replicator-caught-up"]++
+}
+
+func (w *world) catchUp() (steps int) {
+	for w.pending() > 0 && w.replicaCore("") {
+		steps++
+	}
+	return steps
+}
+
+// drawRacePlan draws what the other actors of the node do inside the next flush sub-step.
+func drawRacePlan(t *rapid.T) []racePoint {
+	n := rapid.SampledFrom([]int{0, 0, 1, 1, 1, 2}).Draw(t, "racePoints")
+	var plan []racePoint
+	for i := 0; i < n; i++ {
+		rp := racePoint{at: rapid.SampledFrom([]int{0, 1, 2, 3, 4, 6, 9, 14, 22, 35, 55}).Draw(t, "raceAt")}
+		for k, steps := 0, rapid.IntRange(1, 3).Draw(t, "raceSteps"); k < steps; k++ {
+			rp.steps = append(rp.steps, drawAppendSpec(t))
+		}
+		plan = append(plan, rp)
+	}
+	return plan
+}
+
+// seam is called at every intercepted file-system operation (after the optional image): inside a
+// flush sub-step it performs the planned actions of the other actors on the flush job's goroutine.
+// Eligible events are the table file operations (create / write / close of the sub-step's table
+// files) at which the flush job holds neither the family mutex (probed) nor a kv version lock (the
+// manifest operations are not eligible): there a replication step of another goroutine can run to
+// completion; where the flush job holds the mutex the other goroutine would just wait for such a point.
+func (w *world) seam(op string) {
+	if w.racing || w.subStep == "" || len(w.race) == 0 || !strings.HasPrefix(op, "table") {
+		return
+	}
+	if w.subStep == "flushFamily" && !tsdb.VerifFamilyMutexFree(w.family) {
+		return
+	}
+	n := w.raceSeen
+	w.raceSeen++
+	for _, rp := range w.race {
+		if rp.at != n {
+			continue
+		}
+		w.racing = true
+		for _, sp := range rp.steps {
+			if w.pending() == 0 {
+				if w.appended >= maxEntries {
+					break
+				}
+				if w.subStep != "flushFamily" && ev.Known(sigD8) {
+					// while the finding is listed a step which introduces names is not taken inside these
+					// sub-steps (and would block the steps behind it): the entry writes to existing series
+					sp.reuse = true
+				}
+				w.appendWrite(sp, "appendLog@"+w.subStep, fmt.Sprintf("  [inside %s, seam event %d] ", w.subStep, n))
+				w.classes["append-inside-"+w.subStep]++
+			}
+			w.replicaCore(w.subStep)
+		}
+		w.racing = false
+		w.begin(w.subStep) // the sub-step goes on (new operation index: the number of appended entries moved)
 	}
 }
 
 // opFlushStep performs the next sub-step of a flush cycle in production order
-// (database metadata, shard index, data family), other actions may run between the sub-steps.
+// (database metadata, shard index, data family), other actions may run between the sub-steps
+// and - at the seam events of the plan - inside them.
 func (w *world) opFlushStep() {
 	var err error
+	name := []string{"flushMeta", "flushIndex", "flushFamily"}[w.cycle]
+	w.race, w.raceSeen = drawRacePlan(w.t), 0
+	w.logf("%s", name)
+	from := len(w.im.Points)
+	defer func() { w.flushRanges = append(w.flushRanges, [2]int{from, len(w.im.Points)}) }()
+	w.begin(name)
+	w.subStep = name
 	switch w.cycle {
 	case 0:
-		w.logf("flushMeta")
-		w.begin("flushMeta")
 		d, _ := w.n.Engine.GetDatabase(w.db)
 		err = d.FlushMeta()
-		w.end()
 	case 1:
-		w.logf("flushIndex")
-		w.begin("flushIndex")
 		err = w.shard.FlushIndex()
-		w.end()
 	case 2:
-		w.logf("flushFamily")
-		w.begin("flushFamily")
 		err = w.family.Flush()
-		w.end()
 		w.classes["flush-cycle-completed"]++
 	}
+	w.subStep = ""
+	w.end()
+	if len(w.race) > 0 {
+		w.classes["flush-substep-with-race-plan"]++
+	}
+	w.race = nil
 	if err != nil {
 		w.fatalf("flush sub-step %d: %v", w.cycle, err)
 	}
@@ -314,14 +548,21 @@ func (w *world) recoverImage(p crash.Point) {
 		persisted = s
 	}
 	snap.Close()
-	if groupAck > persisted {
-		w.fatalf("image %s: the log's acknowledged position %d runs ahead of the sequence %d stored with the flushed data", p, groupAck, persisted)
+	// the acknowledgement may pass the stored sequence only over records which carry no write (the
+	// replicator skips them and acknowledges a skipped record which directly follows the acknowledged position)
+	for k := persisted + 1; k <= groupAck; k++ {
+		if !w.bad(int(k)) {
+			w.fatalf("image %s: the log's acknowledged position %d runs ahead of the sequence %d stored with the flushed data (entry %d is a write which is in no flushed data)", p, groupAck, persisted, k)
+		}
 	}
 	if os.Getenv("C07_DEBUG") != "" {
 		c0 := node.NewCluster()
 		c0.AddLeaf("leaf:1", n.Engine, "")
 		c0.SetLayout(w.db, node.DBOption(timeutil.Interval(10_000)), map[string][]models.ShardID{"leaf:1": {0}})
 		for i := 0; i <= int(persisted); i++ {
+			if w.bad(i) {
+				continue
+			}
 			q := fmt.Sprintf("select f%d from m%d where host='h%d' and time>='2023-05-01 10:00:00' and time<='2023-05-01 10:59:59'", w.refs[i]%2, w.refs[i]%3, w.refs[i])
 			rs0, err0 := c0.Query(w.db, q)
 			fmt.Printf("C07DEBUG before replay image=%s entry %d: %v err=%v\n", p, i, node.Canon(rs0), err0)
@@ -337,7 +578,9 @@ func (w *world) recoverImage(p crash.Point) {
 	deadline := time.Now().Add(10 * time.Second)
 	for {
 		st := family.GetState()
-		if logApp < 0 {
+		if logApp < 0 || logApp <= groupAck {
+			// empty log, or everything acknowledged (the replicator starts behind the acknowledged
+			// position; a skipped record next to that position is acknowledged without a family sequence)
 			break
 		}
 		if seq, ok := st.ReplicaSequences[int32(nodeID)]; ok && seq >= logApp {
@@ -358,11 +601,27 @@ func (w *world) recoverImage(p crash.Point) {
 	if logRemoved {
 		// the log partition was removed by the removal task: every appended entry must be in flushed data
 		visible = appendedBefore
-		if persisted < int64(appendedBefore)-1 {
-			w.fatalf("image %s: the log partition was removed although entries above the stored sequence %d exist (%d appended): they are in no flushed data and cannot be replayed", p, persisted, appendedBefore)
+		for k := int(persisted) + 1; k < appendedBefore; k++ {
+			if !w.bad(k) {
+				w.fatalf("image %s: the log partition was removed although entries above the stored sequence %d exist (%d appended, entry %d is a write): they are in no flushed data and cannot be replayed", p, persisted, appendedBefore, k)
+			}
 		}
 	}
-	if visible > 0 {
+	writes := 0
+	for i := 0; i < visible; i++ {
+		if !w.bad(i) {
+			writes++
+		}
+	}
+	if writes == 0 && visible > 0 {
+		// only skipped records: the metric does not exist, nothing may have been written
+		if rs, err := c.Query(w.db, "select s from acc where "+tr); err == nil {
+			if res := node.Canon(rs); len(res) != 0 {
+				w.fatalf("image %s: the log holds only records without a write, query acc returns %v", p, res)
+			}
+		}
+	}
+	if writes > 0 {
 		rs, err := c.Query(w.db, "select s from acc where "+tr)
 		if err != nil {
 			w.fatalf("image %s: query acc: %v (persisted %d, log appended %d)", p, err, persisted, logApp)
@@ -371,6 +630,12 @@ func (w *world) recoverImage(p crash.Point) {
 		sum := res[""]["s"][baseTime]
 		d := digits(sum)
 		for i := 0; i < visible; i++ {
+			if w.bad(i) {
+				if d[i] != 0 {
+					w.fatalf("image %s: log entry %d carries no write (%s record) but the sum cell shows %d applications of it", p, i, w.kinds[i], d[i])
+				}
+				continue
+			}
 			if d[i] == 0 {
 				w.fatalf("image %s: log entry %d was appended before the crash but is in no flushed data and was not replayed (persisted sequence %d, log ack %d, sum %v)", p, i, persisted, groupAck, sum)
 			}
@@ -386,6 +651,9 @@ func (w *world) recoverImage(p crash.Point) {
 	}
 	if os.Getenv("C07_DEBUG") != "" {
 		for i := 0; i < visible; i++ {
+			if w.bad(i) {
+				continue
+			}
 			q := fmt.Sprintf("select f%d from m%d where host='h%d' and %s", w.refs[i]%2, w.refs[i]%3, w.refs[i], tr)
 			rs0, err0 := c.Query(w.db, q)
 			fmt.Printf("C07DEBUG after replay image=%s persisted=%d entry %d: %v err=%v\n", p, persisted, i, node.Canon(rs0), err0)
@@ -393,6 +661,9 @@ func (w *world) recoverImage(p crash.Point) {
 	}
 	// flushed data resolves through the recovered metadata: query by name and tags
 	for i := 0; i < visible; i++ {
+		if w.bad(i) {
+			continue
+		}
 		j := w.refs[i]
 		if (w.d8Exposed[i] || w.d8Exposed[j]) && ev.Known(sigD8) {
 			continue
@@ -424,6 +695,16 @@ func (w *world) recoverImage(p crash.Point) {
 	if nt {
 		classes = append(classes, "entries-above-and-below-persisted-sequence")
 	}
+	if groupAck > persisted {
+		classes = append(classes, "ack-above-stored-sequence-over-skipped-records-only")
+	}
+	for k := int(persisted) + 1; k < visible; k++ {
+		if w.bad(k) {
+			classes = append(classes, "skipped-record-above-stored-sequence")
+			break
+		}
+	}
+	classes = append(classes, w.imageTags[p.Seq]...)
 	ev.Case("crash-points", strings.Join(w.ops, ";")+"|"+p.String(), nt, classes, nil)
 }
 
@@ -432,9 +713,16 @@ func runHistory(t *rapid.T, thorough bool) {
 	if err != nil {
 		t.Fatalf("harness: %v", err)
 	}
-	w := &world{t: t, dir: filepath.Join(dir, "node"), db: fmt.Sprintf("c07db%d", dbSeq.Add(1)), classes: map[string]int{}, d8Exposed: map[int]bool{}, thorough: thorough}
+	w := &world{t: t, dir: filepath.Join(dir, "node"), db: fmt.Sprintf("c07db%d", dbSeq.Add(1)), classes: map[string]int{}, d8Exposed: map[int]bool{}, thorough: thorough, imageTags: map[int][]string{}}
 	w.im = &crash.Imager{Root: w.dir, OutDir: filepath.Join(dir, "img")}
-	hook := func(op, path string, before bool) { w.im.Hook(op, path, before) }
+	// a crash inside the stream of logical writes of one table file leaves a file no manifest names:
+	// one in four of these points is imaged (which ones is drawn), every other point always
+	salt := rapid.IntRange(0, 3).Draw(t, "tableWriteImages")
+	w.im.Want = func(p crash.Point) bool { return p.FSOp != "tableWrite" || (p.Seq+salt)%4 == 0 }
+	hook := func(op, path string, before bool) {
+		w.im.Hook(op, path, before)
+		w.seam(op)
+	}
 	kv.VerifSetFSHook(hook)
 	version.VerifSetFSHook(hook)
 	table.VerifSetFSHook(hook)
@@ -505,19 +793,30 @@ func runHistory(t *rapid.T, thorough bool) {
 	}
 
 	t.Repeat(map[string]func(*rapid.T){
-		"appendLog":    func(t *rapid.T) { w.t = t; w.opAppend() },
-		"appendLog2":   func(t *rapid.T) { w.t = t; w.opAppend() },
-		"replicaStep":  func(t *rapid.T) { w.t = t; w.opReplicaStep() },
-		"replicaStep2": func(t *rapid.T) { w.t = t; w.opReplicaStep() },
-		"flushStep":    func(t *rapid.T) { w.t = t; w.opFlushStep() },
-		"logGC":        func(t *rapid.T) { w.t = t; w.opLogGC() },
+		"appendLog":      func(t *rapid.T) { w.t = t; w.opAppend() },
+		"appendLog2":     func(t *rapid.T) { w.t = t; w.opAppend() },
+		"replicaStep":    func(t *rapid.T) { w.t = t; w.opReplicaStep() },
+		"replicaStep2":   func(t *rapid.T) { w.t = t; w.opReplicaStep() },
+		"replicaCatchUp": func(t *rapid.T) { w.t = t; w.opReplicaCatchUp() },
+		"flushStep":      func(t *rapid.T) { w.t = t; w.opFlushStep() },
+		"flushStep2":     func(t *rapid.T) { w.t = t; w.opFlushStep() },
+		"appendSkipped":  func(t *rapid.T) { w.t = t; w.opAppendSkipped() },
+		"logGC":          func(t *rapid.T) { w.t = t; w.opLogGC() },
 	})
 	w.t = t
 
 	// the periodic log-removal task (WriteAheadLogManager garbage collection): Partition.IsExpire()
 	// syncs + collects the log and says whether the partition of this (long past) family may be
 	// removed; if so the task stops and closes the partition and removes its directory.
-	if rapid.Bool().Draw(t, "logRemovalTask") {
+	// Usually the replicator has consumed everything when the task looks at the partition.
+	removal := rapid.SampledFrom([]string{"none", "task", "caught-up+task", "caught-up+task"}).Draw(t, "logRemovalTask")
+	if removal == "caught-up+task" {
+		w.catchUp()
+		if w.pending() == 0 {
+			w.classes["removal-task-sees-caught-up-replicator"]++
+		}
+	}
+	if removal != "none" {
 		w.logf("logRemovalTask")
 		w.begin("logRemovalTask")
 		if w.part.IsExpire() {
@@ -532,6 +831,14 @@ func runHistory(t *rapid.T, thorough bool) {
 		w.end()
 	}
 
+	// the node dies after the last operation: one image of the idle node
+	// (after the removal of the log the image taken there is that image)
+	if !w.logRemoved {
+		w.begin("endOfHistory")
+		w.im.Hook("endOfHistory", w.dir, false)
+		w.end()
+	}
+
 	// ---- the crash: the live node is not used any more; sampled images are recovered
 	pts := w.im.Points
 	w.im.Active = false
@@ -542,37 +849,98 @@ func runHistory(t *rapid.T, thorough bool) {
 			withDir = append(withDir, i)
 		}
 	}
-	limit := 6
+	limit := 10
 	if thorough {
 		limit = 30
 	}
 	chosen := map[int]bool{}
+	tag := func(i int, t string) { w.imageTags[pts[i].Seq] = append(w.imageTags[pts[i].Seq], t) }
+	isFlushOp := func(n string) bool { return n == "flushFamily" || n == "flushIndex" || n == "flushMeta" }
+	dataCommit := func(i int) bool {
+		return pts[i].OpName == "flushFamily" && pts[i].FSOp == "manifestSync" && !pts[i].Before
+	}
 	if len(withDir) <= limit {
 		for _, i := range withDir {
 			chosen[i] = true
 		}
 	} else {
+		// the idle node at the end and the removed log
+		for _, i := range withDir {
+			if pts[i].FSOp == "logRemoved" || pts[i].FSOp == "endOfHistory" {
+				chosen[i] = true
+			}
+		}
+		// loss windows: from the commit of a data flush inside which the replicator ran (resp. from a
+		// skipped record above unflushed writes) to the next commit of a data flush: the last image
+		// of the window and a drawn one
+		window := func(start int, fromCommit bool, label string) {
+			if fromCommit {
+				for start < len(pts) && !dataCommit(start) {
+					start++
+				}
+			}
+			end := start + 1
+			for end < len(pts) && !dataCommit(end) {
+				end++
+			}
+			if start >= len(pts) {
+				return
+			}
+			last := end - 1
+			pick := rapid.IntRange(start, last).Draw(t, "windowImage")
+			for _, i := range []int{last, pick} {
+				if pts[i].Dir != "" {
+					chosen[i] = true
+					tag(i, label)
+				}
+			}
+		}
+		pickWindows := func(starts []int, fromCommit bool, label string) {
+			if len(starts) == 0 {
+				return
+			}
+			window(starts[len(starts)-1], fromCommit, label)
+			if len(starts) > 1 {
+				window(starts[rapid.IntRange(0, len(starts)-2).Draw(t, "window")], fromCommit, label)
+			}
+		}
+		pickWindows(w.raceWindows, true, "window-after-data-flush-with-replication-inside")
+		pickWindows(w.skipWindows, false, "window-after-skipped-record-above-unflushed-writes")
 		// prefer the commit boundaries inside flush sub-steps (between two manifest commits of the
 		// several kv families one sub-step flushes) and the points of replication steps / log GC
 		var hot, boundary []int
 		for _, i := range withDir {
-			switch pts[i].OpName {
-			case "flushFamily", "flushIndex", "flushMeta":
+			name := pts[i].OpName
+			switch {
+			case isFlushOp(name):
 				if pts[i].FSOp == "manifestSync" && !pts[i].Before {
 					boundary = append(boundary, i)
 				}
 				hot = append(hot, i)
-			case "replicaStep", "logGC":
+			case strings.HasPrefix(name, "replicaStep"), name == "logGC", strings.HasPrefix(name, "appendLog@"):
 				hot = append(hot, i)
 			}
 		}
-		for n := 0; n < 3 && len(boundary) > 0; n++ {
-			chosen[boundary[rapid.IntRange(0, len(boundary)-1).Draw(t, "boundaryImage")]] = true
-		}
-		for _, i := range withDir {
-			if pts[i].FSOp == "logRemoved" {
-				chosen[i] = true
+		// inner boundaries: after a commit of a sub-step which is followed by another commit of the same sub-step
+		var inner []int
+		for _, r := range w.flushRanges {
+			last := -1
+			for i := r[0]; i < r[1] && i < len(pts); i++ {
+				if pts[i].FSOp == "manifestSync" && !pts[i].Before && pts[i].Dir != "" {
+					if last >= 0 {
+						inner = append(inner, last)
+					}
+					last = i
+				}
 			}
+		}
+		for n := 0; n < 3 && len(inner) > 0; n++ {
+			i := inner[rapid.IntRange(0, len(inner)-1).Draw(t, "innerBoundaryImage")]
+			chosen[i] = true
+			tag(i, "between-two-commits-of-one-flush-sub-step")
+		}
+		for n := 0; n < 2 && len(boundary) > 0; n++ {
+			chosen[boundary[rapid.IntRange(0, len(boundary)-1).Draw(t, "boundaryImage")]] = true
 		}
 		for len(chosen) < limit {
 			pool := withDir
